@@ -310,7 +310,15 @@ def driver_batch(lines: list[str], timeout=600) -> list[str]:
     if not lines:
         return []
     data = "\n".join(lines) + "\n"
-    r = subprocess.run([str(DRIVER)], input=data, capture_output=True, text=True, timeout=timeout)
+    for attempt in range(60):   # a concurrent check may be re-linking the driver right now
+        if DRIVER.exists():
+            break
+        time.sleep(2)
+    try:
+        r = subprocess.run([str(DRIVER)], input=data, capture_output=True, text=True, timeout=timeout)
+    except (FileNotFoundError, PermissionError, OSError):
+        time.sleep(20)
+        r = subprocess.run([str(DRIVER)], input=data, capture_output=True, text=True, timeout=timeout)
     out = r.stdout.split("\n")
     if out and out[-1] == "":
         out.pop()
